@@ -46,7 +46,7 @@ theorem addEdge_facts (G G' : SimpleG) (u v : Int) (h : G.addEdge u v = .ok G') 
 
 theorem addEdgesFrom_nil (G : SimpleG) : G.addEdgesFrom [] = .ok G := rfl
 
-theorem addEdgesFrom_cons (G : SimpleG) (e : Int × Int) (es : List (Int × Int)) :
+theorem addEdgesFrom_cons_gb (G : SimpleG) (e : Int × Int) (es : List (Int × Int)) :
     G.addEdgesFrom (e :: es) = (G.addEdge e.1 e.2 >>= fun g => g.addEdgesFrom es) := by
   simp [addEdgesFrom, List.foldlM]
 
@@ -58,7 +58,7 @@ theorem addEdgesFrom_ok_spec (es : List (Int × Int)) (G G' : SimpleG) (h : G.ad
   induction es generalizing G with
   | nil => simp [addEdgesFrom_nil] at h; subst h; exact ⟨rfl, fun e he => he, fun hS => ⟨hS, by simp⟩⟩
   | cons x es ih =>
-    rw [addEdgesFrom_cons, except_bind_ok] at h
+    rw [addEdgesFrom_cons_gb, except_bind_ok] at h
     obtain ⟨G1, h1, h2⟩ := h
     obtain ⟨hn1, hmono1, hx1, _, hsym1⟩ := addEdge_facts G G1 _ _ h1
     obtain ⟨hn', hmono', hsym'⟩ := ih G1 h2
@@ -208,7 +208,7 @@ theorem addMissingSimple_exc (G : SimpleG) (m : Int) (ds : List Draw) (e : Err)
         · rw [bind_exc] at h
           rcases h with h | ⟨es, mid2, _, h⟩
           · exact (samplePairs_exc _ _ _ _ h).1
-          · rw [lift_exc] at h; exact SimpleG.addEdgesFrom_error _ _ _ h
+          · rw [lift_exc] at h; exact SimpleG.addEdgesFrom_error_gb _ _ _ h
         · exact absurd h (pure_ne_exc _ _ _)
 
 /-! ### add_random_missing_edges, bipartite graph -/
@@ -222,7 +222,7 @@ theorem numberOfEdges_addEdge_le (G G' : BipG) (u v : Int) (h : G.addEdge u v = 
 theorem sparseBip_ok (goal : Int) (t : Nat) (G G' : BipG) (ds rest : List Draw)
     (hle : (G.numberOfEdges : Int) ≤ goal) (h : sparseBip goal t G ds = .ok G' rest) :
     G'.l = G.l ∧ G'.r = G.r ∧ G.numberOfEdges ≤ G'.numberOfEdges ∧ (G'.numberOfEdges : Int) ≤ goal ∧
-    (∀ e ∈ G.edgeset, e ∈ G'.edgeset) ∧ (G.Inv → G'.Inv) := by
+    (∀ e ∈ G.edgeset, e ∈ G'.edgeset) ∧ (G.InvGB → G'.InvGB) := by
   induction t generalizing G ds with
   | zero =>
     simp only [sparseBip, pure_ok] at h; obtain ⟨rfl, _⟩ := h
@@ -249,7 +249,7 @@ theorem sparseBip_ok (goal : Int) (t : Nat) (G G' : BipG) (ds rest : List Draw)
           obtain ⟨hl', hr', hn', hg', hmono', hinv'⟩ := ih G1 mid2 (by omega) h
           exact ⟨by omega, by omega, by omega, hg',
             fun e he => hmono' e ((BipG.edgeset_addEdge G G1 _ _ h1 e).2 (Or.inr he)),
-            fun hI => hinv' (BipG.inv_addEdge G G1 _ _ hI h1)⟩
+            fun hI => hinv' (BipG.inv_addEdge_gb G G1 _ _ hI h1)⟩
       · simp at h
 
 theorem sparseBip_exc (goal : Int) (t : Nat) (G : BipG) (ds : List Draw) (e : Err)
@@ -293,7 +293,7 @@ theorem mem_availableBip (G : BipG) (e : Nat × Nat) :
 theorem addMissingBip_ok (G G' : BipG) (m : Int) (ds rest : List Draw)
     (h : addMissingBip G m ds = .ok G' rest) :
     0 ≤ m ∧ G'.l = G.l ∧ G'.r = G.r ∧ (G'.numberOfEdges : Int) = G.numberOfEdges + m ∧
-    (∀ e ∈ G.edgeset, e ∈ G'.edgeset) ∧ (G.Inv → G'.Inv) := by
+    (∀ e ∈ G.edgeset, e ∈ G'.edgeset) ∧ (G.InvGB → G'.InvGB) := by
   unfold addMissingBip at h
   split at h
   · simp at h
@@ -316,7 +316,7 @@ theorem addMissingBip_ok (G G' : BipG) (m : Int) (ds rest : List Draw)
           (by rw [pairsToInt_natPair]; intro e he; exact ((mem_availableBip G1 e).1 (hmem e he)).2)
         rw [pairsToInt_natPair] at hf
         refine ⟨by omega, by omega, by omega, ?_, fun e he => BipG.addEdgesFrom_mono _ _ _ hadd e (hmono1 e he),
-          fun hI => (BipG.addEdgesFrom_spec _ _ _ (hinv1 hI) hadd).1⟩
+          fun hI => (BipG.addEdgesFrom_spec_gb _ _ _ (hinv1 hI) hadd).1⟩
         rw [BipG.numberOfEdges, hf]
         simp only [List.length_append, List.length_reverse]
         have : G1.edgeset.length = G1.numberOfEdges := rfl
@@ -340,7 +340,7 @@ theorem addMissingBip_exc (G : BipG) (m : Int) (ds : List Draw) (e : Err)
         · rw [bind_exc] at h
           rcases h with h | ⟨es, mid2, _, h⟩
           · exact (samplePairs_exc _ _ _ _ h).1
-          · rw [lift_exc] at h; exact (BipG.addEdgesFrom_error _ _ _ h).1
+          · rw [lift_exc] at h; exact (BipG.addEdgesFrom_error_gb _ _ _ h).1
         · exact absurd h (pure_ne_exc _ _ _)
 
 /-! ### split_random_edges -/
@@ -543,7 +543,7 @@ theorem plantClique_exc (G : SimpleG) (k : Int) (ds : List Draw) (e : Err)
   · rw [bind_exc] at h
     rcases h with h | ⟨c, mid, _, h⟩
     · exact (sample_exc _ _ _ _ h).1
-    · rw [lift_exc] at h; exact SimpleG.addEdgesFrom_error _ _ _ h
+    · rw [lift_exc] at h; exact SimpleG.addEdgesFrom_error_gb _ _ _ h
 
 /-! ### planted biclique -/
 theorem mem_bicliqueCalls (left right : List Nat) (v w : Nat) (hv : v ∈ left) (hw : w ∈ right) :
@@ -553,9 +553,9 @@ theorem mem_bicliqueCalls (left right : List Nat) (v w : Nat) (hv : v ∈ left) 
 
 /-- T-C15.2 (plantbiclique): whenever it returns, the sampled `a` left and `b` right vertices
 are completely joined, on the same sides, and no edge was lost -/
-theorem plantBiclique_ok (G G' : BipG) (a b : Int) (ds rest : List Draw) (hI : G.Inv)
+theorem plantBiclique_ok (G G' : BipG) (a b : Int) (ds rest : List Draw) (hI : G.InvGB)
     (h : plantBiclique G a b ds = .ok G' rest) :
-    G'.Inv ∧ G'.l = G.l ∧ G'.r = G.r ∧ (∀ e ∈ G.edgeset, e ∈ G'.edgeset) ∧
+    G'.InvGB ∧ G'.l = G.l ∧ G'.r = G.r ∧ (∀ e ∈ G.edgeset, e ∈ G'.edgeset) ∧
     ∃ left right : List Nat, (left.length : Int) = a ∧ (right.length : Int) = b ∧ left.Nodup ∧ right.Nodup ∧
       (∀ v ∈ left, 1 ≤ v ∧ v ≤ G.l) ∧ (∀ w ∈ right, 1 ≤ w ∧ w ≤ G.r) ∧
       ∀ v ∈ left, ∀ w ∈ right, (v, w) ∈ G'.edgeset := by
@@ -570,7 +570,7 @@ theorem plantBiclique_ok (G G' : BipG) (a b : Int) (ds rest : List Draw) (hI : G
     obtain ⟨hadd, rfl⟩ := h
     obtain ⟨hlenl, hndl, hmeml, _⟩ := sample_ok _ _ _ _ _ hsl
     obtain ⟨hlenr, hndr, hmemr, _⟩ := sample_ok _ _ _ _ _ hsr
-    obtain ⟨hI', hl, hr, hm, _⟩ := BipG.addEdgesFrom_spec _ G G' hI hadd
+    obtain ⟨hI', hl, hr, hm, _⟩ := BipG.addEdgesFrom_spec_gb _ G G' hI hadd
     refine ⟨hI', hl, hr, fun e he => (hm e).2 (Or.inl he), left, right, hlenl, hlenr, hndl, hndr, ?_, ?_, ?_⟩
     · intro v hv; have := mem_rangeN.1 (hmeml v hv); omega
     · intro w hw; have := mem_rangeN.1 (hmemr w hw); omega
@@ -590,7 +590,7 @@ theorem plantBiclique_exc (G : BipG) (a b : Int) (ds : List Draw) (e : Err)
     · rw [bind_exc] at h
       rcases h with h | ⟨r, mid2, _, h⟩
       · exact (sample_exc _ _ _ _ h).1
-      · rw [lift_exc] at h; exact (BipG.addEdgesFrom_error _ _ _ h).1
+      · rw [lift_exc] at h; exact (BipG.addEdgesFrom_error_gb _ _ _ h).1
 
 end GRand
 end Cnfgen
